@@ -1,0 +1,44 @@
+//go:build verif
+
+package migration
+
+// Machine-checked contracts for this package (read by /verif/govc; comment-only, compiled only
+// with -tags verif). See /verif/DESIGN.md.
+//
+// tv(s, j) is the value of the tryte pair s[j], s[j+1] (b1t6: one byte per pair); decoded(s) is the
+// 32-byte address a migration string spells; encpost / accept are the exact output condition of Encode
+// and acceptance condition of Decode, and the two lemmas state that they are inverse.
+
+//@ props C19
+
+//@ spec tv(s string, j int) int = b1t6.tval(s[j]) + 27*b1t6.tval(s[j+1])
+//@ spec pairok(s string, j int) bool = b1t6.istryte(s[j]) && b1t6.istryte(s[j+1]) && -13 <= b1t6.tval(s[j]) && b1t6.tval(s[j]) <= 13 && -13 <= b1t6.tval(s[j+1]) && b1t6.tval(s[j+1]) <= 13
+//@ spec bytev(v int) byte = ite(v < 0, byte(v+256), byte(v))
+//@ spec decoded(s string) [32]byte = mkarray(32, k, bytev(tv(s, 8+2*k)))
+//@ spec framed(s string) bool = len(s) == 81 && forall(k, 0, 8, s[k] == "TRANSFER"[k]) && s[80] == '9'
+//@ spec encpost(a [32]byte, r string) bool = framed(r) && forall(k, 0, 32, pairok(r, 8+2*k) && tv(r, 8+2*k) == b1t6.sbyte(a[k])) && forall(k, 0, 4, pairok(r, 72+2*k) && tv(r, 72+2*k) == b1t6.sbyte(blake2b256(a)[k]))
+//@ spec accept(s string) bool = framed(s) && forall(k, 0, 81, b1t6.istryte(s[k])) && forall(k, 0, 36, -128 <= tv(s, 8+2*k) && tv(s, 8+2*k) <= 127) && forall(k, 0, 4, tv(s, 72+2*k) == b1t6.sbyte(blake2b256(decoded(s))[k]))
+
+//@ func Encode(addr [Ed25519AddressSize]byte) (r trinary.Trytes)
+//@   ensures encpost(addr, r)
+//@   panics  never
+//@   noframe
+
+//@ func Decode(trytes trinary.Hash) (addr [Ed25519AddressSize]byte, err error)
+//@   let ab = ret(b1t6.DecodeTrytes, 1, 0)
+//@   ensures implies(framed(trytes) && forall(k, 0, 81, b1t6.istryte(trytes[k])) && forall(k, 0, 32, -128 <= tv(trytes, 8+2*k) && tv(trytes, 8+2*k) <= 127), forall(k, 0, 32, ab[k] == decoded(trytes)[k]))
+//@   ensures isnil(err) == accept(trytes)
+//@   ensures implies(isnil(err), forall(k, 0, 32, addr[k] == decoded(trytes)[k]))
+//@   ensures implies(!isnil(err), forall(k, 0, 32, addr[k] == 0))
+//@   panics  never
+//@   noframe
+
+//@ lemma decode_inverts_encode(a [32]byte, r string)
+//@   requires encpost(a, r)
+//@   ensures  forall(k, 0, 32, decoded(r)[k] == a[k])
+//@   ensures  accept(r)
+
+//@ lemma encode_inverts_decode(s string, r string)
+//@   requires accept(s)
+//@   requires encpost(decoded(s), r)
+//@   ensures  len(r) == len(s) && forall(k, 0, 81, r[k] == s[k])
